@@ -269,6 +269,13 @@ def run_case(case, scratch):
                     result["replies"].append(("after-leave", k.clock.now, type(m).__name__, getattr(m, "message", None)))
             r2 = ask(k, system, ma, mechanic.StopEngine(), result)
             result["replies"].append(("stop", k.clock.now, type(r2).__name__ if r2 is not None else None, getattr(r2, "message", None)))
+        if not isinstance(r1, mechanic.EngineStarted) and case.get("settle_before_teardown", rng.random() < 0.5):
+            # race control tears the actors down right after a failure - or a little later: both are explored. Letting the other hosts
+            # finish first shows whether anything else (e.g. a late EngineStarted) is still sent to race control.
+            k.drain(40.0)
+            while k.ext.inbox:
+                m = k.ext.inbox.pop(0)
+                result["replies"].append(("after-failure", k.clock.now, type(m).__name__, getattr(m, "message", None)))
         # race control always ends with an exit request (racecontrol.race(): finally: tell(ActorExitRequest))
         system.tell(ma, ta.ActorExitRequest())
         k.drain(60.0)
@@ -332,6 +339,14 @@ def check(ctx, case, res, problems, feats):
         return
     if start is None:
         return
+    # whenever race control is told that the engine has started - as the answer to StartEngine or at any later time - every host
+    # must have started all of its nodes by then
+    for r in replies:
+        if r[2] == "EngineStarted" and r is not start:
+            ctx.clause("started-only-after-all-hosts")
+            missing = [h for h in hosts if not [e for e in evs("start_engine:return", h) if e["vt"] <= r[1]]]
+            if missing:
+                problems.append(("started-only-after-all-hosts", f"{where}: race control was told EngineStarted at vt={r[1]:.3f} ({r[0]}) although hosts {missing} never finished start_engine", None))
     if start[2] == "EngineStarted":
         ctx.clause("started-only-after-all-hosts")
         t_started = start[1]
@@ -392,8 +407,9 @@ def check(ctx, case, res, problems, feats):
         if kind == "stop-fails" and fault["host"] == h:
             continue
         ctx.clause("stop-sequence")
-        seq = [e["kind"] for e in log if e["host"] == h and e["vt"] >= stops[0]["vt"] and e["kind"] in ("stop", "flush")]
-        if seq[:2] != ["stop", "flush"] or not [e for e in evs("flush", h) if e.get("refresh")]:
+        i_stop = log.index(stops[0])
+        seq = [e["kind"] for e in log[i_stop:] if e["host"] == h and e["kind"] in ("stop", "flush")]
+        if seq[:2] != ["stop", "flush"] or not [e for e in log[i_stop:] if e["host"] == h and e["kind"] == "flush" and e.get("refresh")]:
             problems.append(("stop-sequence", f"{where}: stop sequence on {h} was {seq[:4]} (expected stop, then flush with refresh)", None))
         ctx.clause("cleanup-unless-preserve")
         cl = [e for e in log if e["kind"] == "cleanup" and any(f"/{h.replace(':', '-')}-" in p for p in [e["host"]])]
